@@ -1,8 +1,1471 @@
-//! C01 - not built yet
+//! C01 - end-to-end delivery: every message sent arrives intact, once, in order.
+//!
+//! Two REAL endpoints over one in-memory duplex (`vlib::vpipe::Pipe`):
+//!   client   : `Connection::builder()` / `Session::builder()` / `Sender::builder()`, a task that sends a finite
+//!              message sequence with `send` (or `send_batchable` + awaiting the delivery futures),
+//!   listener : `ConnectionAcceptor` / `SessionAcceptor` / `LinkAcceptor`, a task that loops `recv()` + `accept()`
+//!              (re-issuing credit in manual mode) and pushes the re-encoded message into a shared log.
+//! All tasks are `tokio::spawn`ed on the hooked current-thread runtime, so the explorer's Task / Select / Read /
+//! Write / Preempt choices cover the sender task, the receiver task, the four engine tasks and the byte-stream
+//! fragmentation of the transport.
+//!
+//! Enumerated:
+//!  (1) the configuration lattice (max-frame-size x client windows x listener windows x credit policy x
+//!      snd-settle x rcv-settle x channel buffers) x message sequences x {send, send_batchable}, every instance
+//!      once with the DEFAULT schedule;
+//!  (2) on a fixed list of small instances (24 hand-picked: windows of 1, credit Auto(1)/Manual(1), buffers of 1,
+//!      exact-fit / one-over / multi-frame messages ...; 32 "pressure" instances: multi-frame + small + multi-frame
+//!      through buffers of 1 / 2 against a listener window of 1 / 2) EVERY schedule within a deviation bound
+//!      (`vlib::explore`; quick: one deviation of any kind; thorough: also task<=2 and one deviation on every
+//!      31st lattice instance).
+//!
+//! Oracle = the statement, nothing more:
+//!   * the sequence of messages the receiving application got == the sequence sent: same count (exactly once),
+//!     same order, byte-for-byte equal re-encoding of all sections and the body;
+//!   * every send resolves (the connection stays up in every scenario: no faults are injected, nobody closes),
+//!     judged with a far virtual-time horizon; a busy loop, a real-time hang or a panic of a library task is a
+//!     violation as well, because then the message cannot arrive while the connection was never lost.
+//! Permissive readings: the outcome value a send resolves with is not judged beyond "it resolved with Ok"
+//! (the receiver accepts everything; settlement semantics are C02's); wire-level flow-control conformance is
+//! C07/C08's business and only COUNTED here (non-vacuity), never judged.
+//!
+//! Signatures: `order-differs`, `message-corrupted`, `message-delivered-twice`, `unknown-message-delivered`,
+//! `send-failed [..]`, `library-task-panicked [..]`, `busy-loop`, `real-time-hang`, and for stalls
+//! `send-hangs [<stage>] <buffers> <schedule>` / `message-lost [<stage>] <buffers> <schedule>` where <stage> says
+//! how far the first stuck message got as seen on the wire and by the two applications, <buffers> is
+//! small-buffers (1, 2) / roomy-buffers (256) and <schedule> is default-schedule / deviating-schedule /
+//! deviating-schedule+preempt.
+use fe2o3_amqp::acceptor::{
+    ConnectionAcceptor, LinkAcceptor, LinkEndpoint, SessionAcceptor, SupportedReceiverSettleModes, SupportedSenderSettleModes,
+};
+use fe2o3_amqp::link::delivery::Sendable;
+use fe2o3_amqp::link::CreditMode;
+use fe2o3_amqp::{Connection, Sender, Session};
+use fe2o3_amqp_types::definitions::{ReceiverSettleMode, SenderSettleMode};
+use fe2o3_amqp_types::messaging::message::__private::Serializable;
+use fe2o3_amqp_types::messaging::{AmqpValue, Batch, Body, Data, Message};
+use fe2o3_amqp_types::performatives::Performative;
+use serde::{Deserialize, Serialize};
+use serde_amqp::Value;
+use serde_bytes::ByteBuf;
+use serde_json::json;
+use std::collections::{BTreeMap, HashMap, HashSet};
+use std::sync::{Arc, Mutex};
+use std::time::{Duration, Instant};
+use tokio::time::timeout;
+use vlib::explore::{determinism_check, explore, Bounds};
+use vlib::peer::value_len;
 use vlib::report::{Ctx, Outcome};
+use vlib::runner::{run_exec, Exec, RunCfg, Scenario};
+use vlib::tape::{Kind, Point, KINDS};
+use vlib::util::{h64, hex, par_map};
+use vlib::vpipe::{Chunking, End, Pipe};
 
-pub fn run(_ctx: &Ctx) -> Outcome {
+// ------------------------------------------------------------------------------------------ configuration
+
+#[derive(Debug, Clone, Copy, PartialEq, Eq, Hash, Serialize, Deserialize)]
+pub enum Credit {
+    /// listener receiver in `CreditMode::Auto(n)`
+    Auto(u32),
+    /// `CreditMode::Manual`, n credits granted initially, the application re-issues n after every delivery
+    Manual(u32),
+}
+
+/// size classes of a message: what the ENCODED message (all sections + body) measures against the payload room
+/// of a single transfer frame ("cap" = max-frame-size - frame header - transfer performative, measured on the wire)
+#[derive(Debug, Clone, Copy, PartialEq, Eq, Hash, Serialize, Deserialize)]
+pub enum Size {
+    /// body of 0 bytes
+    B0,
+    /// body of 10 bytes
+    B10,
+    /// encoded message = cap - 1
+    CapM1,
+    /// encoded message = cap: fills a frame of exactly max-frame-size
+    Cap,
+    /// encoded message = cap + 1: needs a second frame
+    CapP1,
+    /// body of 2.5 x max-frame-size
+    Big,
+}
+
+#[derive(Debug, Clone, Copy, PartialEq, Eq, Hash, Serialize, Deserialize)]
+pub struct Msg {
+    pub size: Size,
+    /// section combination 0..4: 0 body only; 1 header+properties; 2 all six optional sections;
+    /// 3 delivery-annotations+message-annotations+application-properties+footer.
+    /// It also selects the body kind: 0 amqp-value(string), 1 one data section, 2 amqp-value(binary), 3 two data sections
+    pub sec: u8,
+    /// `Sendable::settled` (only looked at by the library when the negotiated snd-settle-mode is mixed)
+    pub settled: Option<bool>,
+}
+
+#[derive(Debug, Clone, PartialEq, Eq, Hash, Serialize, Deserialize)]
+pub struct Cfg {
+    /// max-frame-size of the client / of the listener (the smaller one is what both must respect)
+    pub mfs: u32,
+    pub mfs_l: u32,
+    /// client session: incoming-window = outgoing-window = cw; listener session: lw
+    pub cw: u32,
+    pub lw: u32,
+    pub credit: Credit,
+    /// 0 settled, 1 unsettled, 2 mixed
+    pub snd: u8,
+    /// 0 first, 1 second
+    pub rcv: u8,
+    /// mpsc buffer size of: client connection, client session, client sender link, listener connection, listener session
+    pub buf: usize,
+    /// false: `send`, true: `send_batchable` for all messages, then await the delivery futures in order
+    pub batch: bool,
+    pub seq: Vec<Msg>,
+}
+
+impl Cfg {
+    fn negotiated_mfs(&self) -> u32 {
+        self.mfs.min(self.mfs_l)
+    }
+    fn short(&self) -> String {
+        format!(
+            "mfs {}/{} windows client {} listener {} credit {:?} snd {} rcv {} buffers {} {} seq {:?}",
+            self.mfs,
+            self.mfs_l,
+            self.cw,
+            self.lw,
+            self.credit,
+            ["settled", "unsettled", "mixed"][self.snd as usize % 3],
+            ["first", "second"][self.rcv as usize % 2],
+            self.buf,
+            if self.batch { "send_batchable" } else { "send" },
+            self.seq.iter().map(|m| format!("{:?}/s{}{}", m.size, m.sec, match m.settled { None => "", Some(true) => "/pre-settled", Some(false) => "/unsettled" })).collect::<Vec<_>>()
+        )
+    }
+}
+
+fn snd_mode(c: &Cfg) -> SenderSettleMode {
+    match c.snd {
+        0 => SenderSettleMode::Settled,
+        1 => SenderSettleMode::Unsettled,
+        _ => SenderSettleMode::Mixed,
+    }
+}
+fn rcv_mode(c: &Cfg) -> ReceiverSettleMode {
+    if c.rcv == 0 {
+        ReceiverSettleMode::First
+    } else {
+        ReceiverSettleMode::Second
+    }
+}
+
+// ------------------------------------------------------------------------------------------ messages
+
+type M = Message<Body<Value>>;
+
+fn filler(index: usize, n: usize) -> Vec<u8> {
+    // position dependent, different per message: a lost, duplicated or swapped chunk changes the bytes
+    (0..n).map(|j| b'a' + ((j * 7 + index * 11 + j / 26) % 26) as u8).collect()
+}
+
+fn with_body(index: usize, sec: u8, n: usize) -> M {
+    let mask: u64 = match sec % 4 {
+        0 => 0,
+        1 => 0b001001,
+        2 => 0b111111,
+        _ => 0b110110,
+    };
+    // body kind 5 of gen_message = empty body; replaced below
+    let (mut m, _, _) = crate::typed::gen_message(mask | (5 << 6), false);
+    let bytes = filler(index, n);
+    m.body = match sec % 4 {
+        0 => Body::Value(AmqpValue(Value::String(String::from_utf8(bytes).expect("ascii")))),
+        1 => Body::Data(Batch::new(vec![Data(ByteBuf::from(bytes))])),
+        2 => Body::Value(AmqpValue(Value::Binary(ByteBuf::from(bytes)))),
+        _ => {
+            let cut = n / 3;
+            Body::Data(Batch::new(vec![Data(ByteBuf::from(bytes[..cut].to_vec())), Data(ByteBuf::from(bytes[cut..].to_vec()))]))
+        }
+    };
+    m
+}
+
+fn encode(m: &M) -> Vec<u8> {
+    serde_amqp::to_vec(&Serializable(m)).expect("encode message")
+}
+
+/// build message `index` of the sequence; `cap` = payload room of a single frame for this message
+fn build_message(index: usize, spec: &Msg, cap: usize, mfs: u32) -> M {
+    let target = match spec.size {
+        Size::B0 => return with_body(index, spec.sec, 0),
+        Size::B10 => return with_body(index, spec.sec, 10),
+        Size::Big => return with_body(index, spec.sec, mfs as usize * 5 / 2),
+        Size::CapM1 => cap - 1,
+        Size::Cap => cap,
+        Size::CapP1 => cap + 1,
+    };
+    // smallest body whose encoding reaches the target (exact unless the target falls into the 3-byte jump
+    // between the 8-bit and the 32-bit length form; the non-vacuity counters tell)
+    let base = encode(&with_body(index, spec.sec, 0)).len();
+    let mut n = target.saturating_sub(base + 12);
+    loop {
+        let m = with_body(index, spec.sec, n);
+        if encode(&m).len() >= target {
+            return m;
+        }
+        n += 1;
+    }
+}
+
+pub struct Prepared {
+    pub msgs: Vec<M>,
+    pub enc: Vec<Vec<u8>>,
+    pub caps: Vec<usize>,
+}
+
+// ------------------------------------------------------------------------------------------ the scenario
+
+/// far virtual-time horizon: the clock only advances when every task is blocked, so reaching it means "hangs"
+const HORIZON: Duration = Duration::from_secs(100);
+
+#[derive(Debug, Clone, Default, Hash)]
+pub struct Obs {
+    /// set-up of the client (open / begin / attach) or of the listener failed: not a verdict on C01
+    pub setup_error: Option<String>,
+    /// what the sender task is doing / did last
+    pub step: String,
+    /// per message: the result of send (or of send_batchable and of its delivery future)
+    pub sends: Vec<Option<Result<String, String>>>,
+    pub sender_hangs: bool,
+    /// re-encoded messages in the order the receiving application got them
+    pub received: Vec<Vec<u8>>,
+    pub recv_notes: Vec<String>,
+    pub wire: Wire,
+}
+
+#[derive(Default)]
+struct Shared {
+    step: String,
+    setup_error: Option<String>,
+    sends: Vec<Option<Result<String, String>>>,
+    received: Vec<Vec<u8>>,
+    recv_notes: Vec<String>,
+}
+type Sh = Arc<Mutex<Shared>>;
+
+async fn listener_main(io: End, cfg: Cfg, sh: Sh) {
+    macro_rules! step {
+        ($what:expr, $e:expr) => {
+            match $e {
+                Ok(v) => v,
+                Err(e) => {
+                    sh.lock().unwrap().setup_error = Some(format!("listener: {} failed: {:?}", $what, e));
+                    return;
+                }
+            }
+        };
+    }
+    let acceptor = ConnectionAcceptor::builder().container_id("listener").max_frame_size(cfg.mfs_l).buffer_size(cfg.buf).build();
+    let mut conn = step!("connection accept", acceptor.accept(io).await);
+    let sacc = SessionAcceptor::builder().incoming_window(cfg.lw).outgoing_window(cfg.lw).buffer_size(cfg.buf).build();
+    let mut session = step!("session accept", sacc.accept(&mut conn).await);
+    let lacc = LinkAcceptor::builder()
+        .supported_sender_settle_modes(SupportedSenderSettleModes::All)
+        .supported_receiver_settle_modes(SupportedReceiverSettleModes::Both)
+        .build();
+    let mut r = match step!("link accept", lacc.accept(&mut session).await) {
+        LinkEndpoint::Receiver(r) => r,
+        LinkEndpoint::Sender(_) => {
+            sh.lock().unwrap().setup_error = Some("listener: the client's sender link was accepted as a sender".into());
+            return;
+        }
+    };
+    // the LinkAcceptor has no credit-mode knob: an accepted receiver starts as Auto(200) and the application
+    // changes the policy through the public Receiver API (a credit reduction is valid AMQP)
+    match cfg.credit {
+        Credit::Auto(200) => {}
+        Credit::Auto(n) => step!("set_credit", r.set_credit(n).await),
+        Credit::Manual(n) => {
+            r.set_credit_mode(CreditMode::Manual);
+            step!("set_credit", r.set_credit(n).await)
+        }
+    }
+    loop {
+        match r.recv::<Body<Value>>().await {
+            Ok(d) => {
+                let bytes = serde_amqp::to_vec(&Serializable(d.message())).unwrap_or_else(|e| format!("<re-encode failed: {e}>").into_bytes());
+                sh.lock().unwrap().received.push(bytes);
+                if let Err(e) = r.accept(&d).await {
+                    sh.lock().unwrap().recv_notes.push(format!("accept failed: {e:?}"));
+                }
+                if let Credit::Manual(n) = cfg.credit {
+                    if let Err(e) = r.set_credit(n).await {
+                        sh.lock().unwrap().recv_notes.push(format!("set_credit failed: {e:?}"));
+                    }
+                }
+            }
+            Err(e) => {
+                sh.lock().unwrap().recv_notes.push(format!("recv ended: {e:?}"));
+                break;
+            }
+        }
+    }
+    // keep the endpoints alive: the connection must stay up until the scenario is over
+    std::future::pending::<()>().await;
+    drop((conn, session));
+}
+
+type Keep = (fe2o3_amqp::connection::ConnectionHandle<()>, fe2o3_amqp::session::SessionHandle<()>, Sender);
+
+async fn sender_main(io: End, cfg: Cfg, p: Arc<Prepared>, sh: Sh) -> Option<Keep> {
+    macro_rules! step {
+        ($what:expr, $e:expr) => {{
+            sh.lock().unwrap().step = $what.to_string();
+            match $e {
+                Ok(v) => v,
+                Err(e) => {
+                    sh.lock().unwrap().setup_error = Some(format!("client: {} failed: {:?}", $what, e));
+                    return None;
+                }
+            }
+        }};
+    }
+    let mut conn = step!("open", Connection::builder().container_id("client").max_frame_size(cfg.mfs).buffer_size(cfg.buf).open_with_stream(io).await);
+    let mut session = step!("begin", Session::builder().incoming_window(cfg.cw).outgoing_window(cfg.cw).buffer_size(cfg.buf).begin(&mut conn).await);
+    let mut b = Sender::builder().name("c01-link").target("q").sender_settle_mode(snd_mode(&cfg)).receiver_settle_mode(rcv_mode(&cfg));
+    b.buffer_size = cfg.buf;
+    let mut sender = step!("attach", b.attach(&mut session).await);
+    let mut futs = vec![];
+    for (i, m) in p.msgs.iter().enumerate() {
+        sh.lock().unwrap().step = format!("send #{i}");
+        let sendable = Sendable::builder().message(m.clone()).settled(cfg.seq[i].settled).build();
+        if cfg.batch {
+            match sender.send_batchable(sendable).await {
+                Ok(f) => futs.push((i, f)),
+                Err(e) => sh.lock().unwrap().sends[i] = Some(Err(format!("send_batchable: {e:?}"))),
+            }
+        } else {
+            let r = sender.send(sendable).await;
+            sh.lock().unwrap().sends[i] = Some(r.map(|o| format!("{o:?}")).map_err(|e| format!("send: {e:?}")));
+        }
+    }
+    for (i, f) in futs {
+        sh.lock().unwrap().step = format!("await delivery future #{i}");
+        let r = f.await;
+        sh.lock().unwrap().sends[i] = Some(r.map(|o| format!("{o:?}")).map_err(|e| format!("delivery future: {e:?}")));
+    }
+    sh.lock().unwrap().step = "done".into();
+    Some((conn, session, sender))
+}
+
+async fn scen(cfg: Cfg, p: Arc<Prepared>, io_choices: bool) -> Obs {
+    let (pipe, a, b) = Pipe::new();
+    if io_choices {
+        for d in 0..2 {
+            pipe.set_read_chunking(d, Chunking::Tape);
+            pipe.set_write_chunking(d, Chunking::Tape);
+        }
+    }
+    let sh: Sh = Arc::new(Mutex::new(Shared { sends: vec![None; p.msgs.len()], ..Default::default() }));
+    let lt = tokio::spawn(listener_main(b, cfg.clone(), sh.clone()));
+    let mut st = tokio::spawn(sender_main(a, cfg.clone(), p.clone(), sh.clone()));
+    let joined = timeout(HORIZON, &mut st).await;
+    let mut o = Obs::default();
+    let keep = match joined {
+        Ok(Ok(k)) => k,
+        Ok(Err(e)) => {
+            // the sender task died: its panic message is in Exec.panics
+            o.recv_notes.push(format!("sender task ended abnormally: {e}"));
+            None
+        }
+        Err(_) => {
+            o.sender_hangs = true;
+            None
+        }
+    };
+    // settled sends return before anything is on the wire: let the system run dry
+    for _ in 0..3 {
+        tokio::time::sleep(Duration::from_millis(1)).await;
+    }
+    {
+        let g = sh.lock().unwrap();
+        o.setup_error = g.setup_error.clone();
+        o.step = g.step.clone();
+        o.sends = g.sends.clone();
+        o.received = g.received.clone();
+        o.recv_notes.extend(g.recv_notes.iter().cloned());
+    }
+    o.wire = analyse_wire(&pipe);
+    // the observation is over: what is still sitting unread in the transport (diagnostic only)
+    o.wire.unread = [pipe.take_bytes(0).len(), pipe.take_bytes(1).len()];
+    st.abort();
+    lt.abort();
+    drop(keep);
+    o
+}
+
+fn scenario(cfg: &Cfg, p: &Arc<Prepared>, io_choices: bool) -> Scenario<Obs> {
+    let cfg = cfg.clone();
+    let p = p.clone();
+    Arc::new(move || Box::pin(scen(cfg.clone(), p.clone(), io_choices)))
+}
+
+// ------------------------------------------------------------------------------------------ wire tap
+
+#[derive(Debug, Clone, Default, Hash)]
+pub struct Wire {
+    /// transfer frames per delivery, client -> listener, in wire order
+    pub frames_per_delivery: Vec<usize>,
+    /// size on the wire of every transfer frame
+    pub transfer_frame_sizes: Vec<usize>,
+    /// re-assembled payload of every delivery (hash) - compared with the sent encoding for the DETAIL text only
+    pub payload_hashes: Vec<u64>,
+    /// performative length + 8 of the FIRST frame of every delivery
+    pub overheads: Vec<usize>,
+    /// at some moment the client had sent as many transfer frames as the session flows written by the listener
+    /// until then allowed: the window was really closed
+    pub window_closed: bool,
+    /// the client sent MORE transfer frames than every flow written until then allowed
+    pub window_overrun: bool,
+    /// at some moment the client had started as many deliveries as the link flows written until then allowed
+    pub credit_exhausted: bool,
+    /// deliveries whose last frame (more=false) is on the wire
+    pub complete_deliveries: usize,
+    pub deliveries_started: usize,
+    /// at the END of the execution: what the last flows written by the listener still allow
+    pub final_window_open: bool,
+    pub final_credit_open: bool,
+    /// bytes written by the listener / the client that the other side never read from the transport
+    pub unread: [usize; 2],
+    pub flows_from_listener: usize,
+    pub dispositions: [usize; 2],
+    pub frames: [usize; 2],
+    /// human-readable trace, global wire order
+    pub trace: Vec<String>,
+    pub parse_error: Option<String>,
+}
+
+/// Cut the byte log into frames (global order preserved by processing the log entries in order) and follow
+/// the session window and the link credit as a wire observer can.
+fn analyse_wire(pipe: &Pipe) -> Wire {
+    let mut w = Wire::default();
+    let mut bufs: [Vec<u8>; 2] = [vec![], vec![]];
+    let mut hdr = [false; 2];
+    // session window the listener advertised: next-incoming-id + incoming-window (transfer-ids start at the
+    // client's begin.next-outgoing-id)
+    let mut client_first_id: u32 = 0;
+    let mut win_limit: Option<u64> = None;
+    let mut sent_frames: u64 = 0;
+    let mut credit_limit: Option<u64> = None;
+    let mut client_initial_dc: u32 = 0;
+    let mut deliveries_started: u64 = 0;
+    let mut in_delivery = false;
+    let mut cur_payload: Vec<u8> = vec![];
+    let mut cur_frames = 0usize;
+    for e in pipe.log() {
+        let d = e.dir;
+        bufs[d].extend_from_slice(&e.bytes);
+        loop {
+            let b = &bufs[d];
+            if !hdr[d] {
+                if b.len() < 8 {
+                    break;
+                }
+                if &b[..4] != b"AMQP" {
+                    w.parse_error = Some(format!("direction {d} does not start with a protocol header"));
+                    return w;
+                }
+                hdr[d] = true;
+                bufs[d].drain(..8);
+                continue;
+            }
+            if b.len() < 8 {
+                break;
+            }
+            let size = u32::from_be_bytes(b[..4].try_into().unwrap()) as usize;
+            if size < 8 {
+                w.parse_error = Some(format!("direction {d}: frame size {size}"));
+                return w;
+            }
+            if b.len() < size {
+                break;
+            }
+            let frame: Vec<u8> = bufs[d].drain(..size).collect();
+            w.frames[d] += 1;
+            let doff = (frame[4] as usize * 4).min(size);
+            let body = &frame[doff..];
+            if body.is_empty() {
+                w.trace.push(format!("{} empty frame", if d == 0 { "client  ->" } else { "listener<-" }));
+                continue;
+            }
+            let Some(vl) = value_len(body) else {
+                w.parse_error = Some(format!("direction {d}: frame body is not an AMQP value: {}", hex(body)));
+                return w;
+            };
+            let perf = match serde_amqp::from_slice::<Performative>(&body[..vl]) {
+                Ok(p) => p,
+                Err(e) => {
+                    w.parse_error = Some(format!("direction {d}: performative does not decode ({e}): {}", hex(&body[..vl])));
+                    return w;
+                }
+            };
+            let payload = &body[vl..];
+            let who = if d == 0 { "client  ->" } else { "listener<-" };
+            match &perf {
+                Performative::Begin(bg) => {
+                    if d == 0 {
+                        client_first_id = bg.next_outgoing_id;
+                    } else {
+                        win_limit = Some(bg.incoming_window as u64);
+                    }
+                    w.trace.push(format!("{who} begin(next-outgoing-id={}, incoming-window={}, outgoing-window={})", bg.next_outgoing_id, bg.incoming_window, bg.outgoing_window));
+                }
+                Performative::Attach(a) => {
+                    if d == 0 {
+                        client_initial_dc = a.initial_delivery_count.unwrap_or(0);
+                    }
+                    w.trace.push(format!("{who} attach(role={:?}, snd={:?}, rcv={:?})", a.role, a.snd_settle_mode, a.rcv_settle_mode));
+                }
+                Performative::Flow(f) => {
+                    if d == 1 {
+                        w.flows_from_listener += 1;
+                        if let Some(nii) = f.next_incoming_id {
+                            win_limit = Some(nii.wrapping_sub(client_first_id) as u64 + f.incoming_window as u64);
+                        }
+                        if f.handle.is_some() {
+                            if let (Some(dc), Some(lc)) = (f.delivery_count, f.link_credit) {
+                                credit_limit = Some(dc.wrapping_sub(client_initial_dc) as u64 + lc as u64);
+                            }
+                        }
+                    }
+                    w.trace.push(format!(
+                        "{who} flow(next-incoming-id={:?}, incoming-window={}, next-outgoing-id={}, handle={:?}, delivery-count={:?}, link-credit={:?}, drain={})",
+                        f.next_incoming_id,
+                        f.incoming_window,
+                        f.next_outgoing_id,
+                        f.handle.as_ref().map(|h| h.0),
+                        f.delivery_count,
+                        f.link_credit,
+                        f.drain
+                    ));
+                }
+                Performative::Transfer(t) => {
+                    if d == 0 {
+                        sent_frames += 1;
+                        w.transfer_frame_sizes.push(size);
+                        if let Some(l) = win_limit {
+                            if sent_frames == l {
+                                w.window_closed = true;
+                            }
+                            if sent_frames > l {
+                                w.window_overrun = true;
+                            }
+                        }
+                        if !in_delivery {
+                            in_delivery = true;
+                            deliveries_started += 1;
+                            cur_payload.clear();
+                            cur_frames = 0;
+                            w.overheads.push(8 + vl);
+                            if let Some(l) = credit_limit {
+                                if deliveries_started >= l {
+                                    w.credit_exhausted = true;
+                                }
+                            }
+                        }
+                        cur_frames += 1;
+                        cur_payload.extend_from_slice(payload);
+                        if !t.more {
+                            in_delivery = false;
+                            w.complete_deliveries += 1;
+                            w.frames_per_delivery.push(cur_frames);
+                            w.payload_hashes.push(h64(&cur_payload));
+                        }
+                    }
+                    w.trace.push(format!(
+                        "{who} transfer(id={:?}, tag={:?}, settled={:?}, more={}, batchable={}) + {} B payload, frame {} B",
+                        t.delivery_id,
+                        t.delivery_tag.as_ref().map(|x| hex(x)),
+                        t.settled,
+                        t.more,
+                        t.batchable,
+                        payload.len(),
+                        size
+                    ));
+                }
+                Performative::Disposition(dp) => {
+                    w.dispositions[d] += 1;
+                    w.trace.push(format!("{who} disposition({:?}, {}..{:?}, settled={}, state={})", dp.role, dp.first, dp.last, dp.settled, dp.state.as_ref().map(|s| format!("{s:?}").split('(').next().unwrap_or("").to_string()).unwrap_or_else(|| "-".into())));
+                }
+                Performative::Open(o) => w.trace.push(format!("{who} open(max-frame-size={})", o.max_frame_size.0)),
+                Performative::Detach(x) => w.trace.push(format!("{who} detach(closed={}, error={:?})", x.closed, x.error)),
+                Performative::End(x) => w.trace.push(format!("{who} end(error={:?})", x.error)),
+                Performative::Close(x) => w.trace.push(format!("{who} close(error={:?})", x.error)),
+            }
+        }
+    }
+    if in_delivery {
+        w.frames_per_delivery.push(cur_frames);
+        w.payload_hashes.push(h64(&cur_payload));
+    }
+    w.deliveries_started = deliveries_started as usize;
+    w.final_window_open = win_limit.map(|l| sent_frames < l).unwrap_or(false);
+    w.final_credit_open = credit_limit.map(|l| deliveries_started < l).unwrap_or(false);
+    w
+}
+
+// ------------------------------------------------------------------------------------------ preparation (cap calibration)
+
+/// key of everything the transfer performative's size depends on
+fn calib_key(c: &Cfg) -> (u8, u8, bool, Vec<Option<bool>>) {
+    (c.snd, c.rcv, c.batch, c.seq.iter().map(|m| m.settled).collect())
+}
+
+type Calib = Mutex<HashMap<(u8, u8, bool, Vec<Option<bool>>), Vec<usize>>>;
+
+/// Measure ON THE WIRE (own frame cutter) how many bytes of a frame the header and the transfer performative
+/// take for message #i of a sequence under this settlement configuration: a probe run with small messages.
+fn overheads(cfg: &Cfg, calib: &Calib) -> Result<Vec<usize>, String> {
+    let key = calib_key(cfg);
+    if let Some(v) = calib.lock().unwrap().get(&key) {
+        return Ok(v.clone());
+    }
+    let probe = Cfg {
+        mfs: 4096,
+        mfs_l: 4096,
+        cw: 5000,
+        lw: 5000,
+        credit: Credit::Auto(200),
+        buf: 256,
+        seq: cfg.seq.iter().map(|m| Msg { size: Size::B10, sec: 0, settled: m.settled }).collect(),
+        ..cfg.clone()
+    };
+    let msgs: Vec<M> = probe.seq.iter().enumerate().map(|(i, s)| build_message(i, s, 0, 4096)).collect();
+    let enc = msgs.iter().map(encode).collect();
+    let p = Arc::new(Prepared { msgs, enc, caps: vec![] });
+    let ex = run_exec(vec![], &RunCfg::none(), &scenario(&probe, &p, false));
+    let Some(o) = ex.out else {
+        return Err(format!("calibration run died: {:?}", ex.panics));
+    };
+    if o.wire.overheads.len() != probe.seq.len() || o.wire.frames_per_delivery.iter().any(|k| *k != 1) {
+        return Err(format!("calibration run did not put {} single-frame deliveries on the wire: {:?} {:?} {:?}", probe.seq.len(), o.wire.frames_per_delivery, o.setup_error, o.sends));
+    }
+    calib.lock().unwrap().insert(key, o.wire.overheads.clone());
+    Ok(o.wire.overheads)
+}
+
+fn prepare(cfg: &Cfg, calib: &Calib) -> Result<Arc<Prepared>, String> {
+    let ov = overheads(cfg, calib)?;
+    let mfs = cfg.negotiated_mfs();
+    let caps: Vec<usize> = ov.iter().map(|o| mfs as usize - o).collect();
+    let msgs: Vec<M> = cfg.seq.iter().enumerate().map(|(i, s)| build_message(i, s, caps[i], mfs)).collect();
+    let enc = msgs.iter().map(encode).collect();
+    Ok(Arc::new(Prepared { msgs, enc, caps }))
+}
+
+// ------------------------------------------------------------------------------------------ the oracle
+
+/// frames a message needs on the wire (for naming the cause of a hang)
+fn frames_needed(p: &Prepared, i: usize) -> usize {
+    let cap = p.caps.get(i).copied().unwrap_or(usize::MAX).max(1);
+    let len = p.enc[i].len();
+    if len <= cap {
+        1
+    } else {
+        // continuation frames carry a shorter performative; the exact count is read from the wire where possible
+        1 + (len - cap).div_ceil(cap)
+    }
+}
+
+fn describe_msg(b: &[u8]) -> String {
+    format!("{} B #{:016x}", b.len(), h64(b))
+}
+
+/// THE ORACLE.  Returns (signature, detail) per violated clause of the statement.
+fn judge(cfg: &Cfg, p: &Prepared, o: &Obs, sched: &str) -> Vec<(String, String)> {
+    let mut f = vec![];
+    let sent: Vec<&Vec<u8>> = p.enc.iter().collect();
+    let got: Vec<&Vec<u8>> = o.received.iter().collect();
+    let summary = || {
+        format!(
+            "sent [{}]; receiving application got [{}]; send results {:?}; sender task at '{}'; receiver notes {:?}; frames per delivery on the wire {:?}, re-assembled wire payload equals the sent encoding {:?}",
+            sent.iter().map(|b| describe_msg(b)).collect::<Vec<_>>().join(", "),
+            got.iter().map(|b| describe_msg(b)).collect::<Vec<_>>().join(", "),
+            o.sends,
+            o.step,
+            o.recv_notes,
+            o.wire.frames_per_delivery,
+            o.wire.payload_hashes.iter().enumerate().map(|(i, h)| p.enc.get(i).map(|e| h64(e) == *h).unwrap_or(false)).collect::<Vec<_>>()
+        )
+    };
+    // --- every send resolves
+    // where message #i got stuck, as far as an observer of the wire and of the two applications can tell
+    let stage = |i: usize| -> &'static str {
+        let w = &o.wire;
+        if i < got.len() {
+            "delivered, send unresolved"
+        } else if i < w.complete_deliveries {
+            "written, not delivered"
+        } else if i < w.deliveries_started {
+            "partially written"
+        } else if !w.final_window_open {
+            "never written, session window closed"
+        } else if !w.final_credit_open {
+            "never written, no link credit"
+        } else {
+            "never written, window and credit open"
+        }
+    };
+    // the cause is named only where the wire shows it: the window the sender sees is closed AND the sequence
+    // contains a message that the transport splits into more frames than the listener's window holds
+    let kmax = (0..p.enc.len()).map(|i| frames_needed(p, i)).max().unwrap_or(1);
+    let split_tag = |st: &str| if st.ends_with("session window closed") && kmax > 1 && (cfg.lw as usize) < kmax { " transport-split window<k" } else { "" };
+    let stall = format!(
+        "final flow-control state on the wire: session window {}, link credit {}, {} deliveries started / {} complete; unread bytes in the transport: {} towards the client, {} towards the listener",
+        if o.wire.final_window_open { "open" } else { "closed" },
+        if o.wire.final_credit_open { "available" } else { "used up" },
+        o.wire.deliveries_started,
+        o.wire.complete_deliveries,
+        o.wire.unread[0],
+        o.wire.unread[1]
+    );
+    // stalls (hangs, messages that never arrive) are qualified by the two things that tell a bounded-channel
+    // stall between engine tasks from a flow-control bug: the size class of the mpsc buffers and the kinds of
+    // schedule deviations the execution needed
+    let bufclass = if cfg.buf <= 2 { "small-buffers" } else { "roomy-buffers" };
+    if o.sender_hangs {
+        // the message the sender task is stuck on
+        let i = o.step.rsplit('#').next().and_then(|x| x.parse::<usize>().ok()).unwrap_or_else(|| o.sends.iter().position(|s| s.is_none()).unwrap_or(0));
+        let st = stage(i);
+        f.push((
+            format!("send-hangs [{st}]{} {bufclass} {sched}", split_tag(st)),
+            format!("the sender task is still at '{}' (message #{i}) after {} s of virtual time with the connection up; {stall}: {}", o.step, HORIZON.as_secs(), summary()),
+        ));
+    }
+    for (i, s) in o.sends.iter().enumerate() {
+        if let Some(Err(e)) = s {
+            let class: String = e.split(|c: char| !c.is_alphanumeric() && c != '_' && c != ':' && c != ' ').next().unwrap_or("").trim().to_string();
+            f.push((format!("send-failed [{class}]"), format!("message #{i}: {e}; {}", summary())));
+            break;
+        }
+    }
+    // --- received sequence == sent sequence
+    if got != sent {
+        let mut sig = None;
+        // classify by the first offending item
+        for (k, g) in got.iter().enumerate() {
+            let n_sent = sent.iter().filter(|s| s == &g).count();
+            let n_got = got.iter().filter(|s| s == &g).count();
+            if n_sent == 0 {
+                sig = Some(if sent.iter().any(|s| s.len() == g.len()) || k < sent.len() { "message-corrupted" } else { "unknown-message-delivered" });
+                break;
+            }
+            if n_got > n_sent {
+                sig = Some("message-delivered-twice");
+                break;
+            }
+        }
+        let sig: String = match sig {
+            Some(x) => x.to_string(),
+            None if got.len() < sent.len() => {
+                // got is a proper prefix of sent: message #got.len() is the first one missing
+                let st = stage(got.len());
+                format!("message-lost [{st}]{} {bufclass} {sched}", split_tag(st))
+            }
+            None => "order-differs".to_string(),
+        };
+        let mut detail = format!("{}; {stall}", summary());
+        if sig == "message-corrupted" {
+            for (k, g) in got.iter().enumerate() {
+                if let Some(s) = sent.get(k) {
+                    if s != g {
+                        let at = s.iter().zip(g.iter()).position(|(a, b)| a != b).unwrap_or(s.len().min(g.len()));
+                        detail += &format!("; message #{k} differs from byte {at}: sent ..{} got ..{}", hex(&s[at.saturating_sub(4)..(at + 12).min(s.len())]), hex(&g[at.saturating_sub(4)..(at + 12).min(g.len())]));
+                        break;
+                    }
+                }
+            }
+        }
+        // a message that is missing only because its send hangs / failed is reported once, under the send's class
+        if !(sig.starts_with("message-lost") && !f.is_empty()) {
+            f.push((sig, detail));
+        }
+    }
+    f
+}
+
+/// "default-schedule", "deviating-schedule" (task order / select branch / IO chunking deviations only) or
+/// "deviating-schedule+preempt" (the execution also parks a task at the in-poll preempt point of the sender's
+/// credit wait)
+fn sched_class(points: &[Point]) -> String {
+    let dev = |k: Kind| points.iter().any(|p| p.chosen != 0 && p.kind == k);
+    if dev(Kind::Preempt) {
+        "deviating-schedule+preempt".into()
+    } else if points.iter().any(|p| p.chosen != 0) {
+        "deviating-schedule".into()
+    } else {
+        "default-schedule".into()
+    }
+}
+
+/// verdicts that need the Exec (panics / busy loop / watchdog)
+fn judge_exec(cfg: &Cfg, p: &Prepared, e: &Exec<Obs>) -> (Vec<(String, String)>, Vec<String>) {
+    let mut f = vec![];
+    let mut mach = vec![];
+    if e.watchdog {
+        f.push(("real-time-hang".to_string(), format!("the execution did not finish within the real-time watchdog ({})", cfg.short())));
+        return (f, mach);
+    }
+    if e.spun {
+        f.push(("busy-loop".to_string(), format!("some task was polled >20000 times at one virtual instant without the system ever blocking ({})", cfg.short())));
+    }
+    let lib_panics: Vec<&String> = e.panics.iter().filter(|p| !p.contains("vcheck/src")).collect();
+    let own_panics: Vec<&String> = e.panics.iter().filter(|p| p.contains("vcheck/src")).collect();
+    if !own_panics.is_empty() {
+        mach.push(format!("the scenario itself panicked: {:?} ({})", own_panics, cfg.short()));
+    }
+    if !lib_panics.is_empty() {
+        let where_ = lib_panics[0].rsplit(" @ ").next().unwrap_or("").rsplit('/').next().unwrap_or("").split(':').next().unwrap_or("").to_string();
+        f.push((format!("library-task-panicked [{where_}]"), format!("{:?}", lib_panics)));
+    }
+    match &e.out {
+        None => {
+            if own_panics.is_empty() && lib_panics.is_empty() {
+                mach.push(format!("the scenario produced no observation ({})", cfg.short()));
+            }
+        }
+        Some(o) => {
+            if let Some(pe) = &o.wire.parse_error {
+                mach.push(format!("wire tap: {pe} ({})", cfg.short()));
+            }
+            if let Some(s) = &o.setup_error {
+                // brief, requirement 6: the scenario could not reach its start state - for the owner to look at
+                mach.push(format!("set-up failed: {s}; step '{}' ({})", o.step, cfg.short()));
+            } else if o.sender_hangs && !o.step.starts_with("send") && !o.step.starts_with("await") {
+                mach.push(format!("set-up hangs at step '{}' ({})", o.step, cfg.short()));
+            } else {
+                f.extend(judge(cfg, p, o, &sched_class(&e.points)));
+            }
+        }
+    }
+    (f, mach)
+}
+
+/// canonical observable state of an execution (for counting distinct states)
+fn obs_key(e: &Exec<Obs>) -> u64 {
+    match &e.out {
+        None => h64(&("died", e.panics.len(), e.spun, e.watchdog)),
+        Some(o) => h64(&(
+            &o.setup_error,
+            &o.step,
+            &o.sends,
+            o.sender_hangs,
+            o.received.iter().map(|b| h64(b)).collect::<Vec<_>>(),
+            (&o.wire.frames_per_delivery, &o.wire.transfer_frame_sizes, o.wire.window_closed, o.wire.window_overrun, o.wire.credit_exhausted),
+            o.wire.flows_from_listener,
+            o.wire.dispositions,
+            e.spun,
+        )),
+    }
+}
+
+// ------------------------------------------------------------------------------------------ enumeration
+
+const CREDITS: [Credit; 4] = [Credit::Auto(1), Credit::Auto(2), Credit::Auto(200), Credit::Manual(1)];
+const WINDOWS: [u32; 3] = [1, 2, 5000];
+const BUFS: [usize; 3] = [1, 2, 256];
+const MFS: [u32; 2] = [512, 4096];
+
+fn m(size: Size, sec: u8) -> Msg {
+    Msg { size, sec, settled: None }
+}
+
+/// the message sequences of the lattice (1-3 messages; every size class and every section combination occurs;
+/// multi-frame first / middle / last; identical neighbours)
+fn sequences() -> Vec<Vec<Msg>> {
+    use Size::*;
+    vec![
+        vec![m(B10, 1)],
+        vec![m(B0, 0), m(Big, 2)],
+        vec![m(CapM1, 3), m(Cap, 0), m(CapP1, 1)],
+        vec![m(Big, 1), m(B10, 3), m(Big, 0)],
+        vec![m(CapP1, 2), m(B0, 3)],
+        vec![m(B10, 0), m(B10, 0), m(Cap, 2)],
+    ]
+}
+
+/// per-message settled flags used when the link is in mixed mode
+fn mixed_flags(seq: &mut [Msg]) {
+    let pat = [Some(true), Some(false), None];
+    for (i, s) in seq.iter_mut().enumerate() {
+        s.settled = pat[i % 3];
+    }
+}
+
+fn lattice() -> Vec<Cfg> {
+    let mut v = vec![];
+    for mfs in MFS {
+        for cw in WINDOWS {
+            for lw in WINDOWS {
+                for credit in CREDITS {
+                    for snd in 0..3u8 {
+                        for rcv in 0..2u8 {
+                            for buf in BUFS {
+                                for batch in [false, true] {
+                                    for seq in sequences() {
+                                        let mut seq = seq;
+                                        if snd == 2 {
+                                            mixed_flags(&mut seq);
+                                        }
+                                        v.push(Cfg { mfs, mfs_l: mfs, cw, lw, credit, snd, rcv, buf, batch, seq });
+                                    }
+                                }
+                            }
+                        }
+                    }
+                }
+            }
+        }
+    }
+    // the two sides announce different max-frame-sizes: the smaller one binds both
+    for (mfs, mfs_l) in [(512u32, 4096u32), (4096, 512)] {
+        for credit in CREDITS {
+            for snd in 0..3u8 {
+                for batch in [false, true] {
+                    for seq in sequences() {
+                        let mut seq = seq;
+                        if snd == 2 {
+                            mixed_flags(&mut seq);
+                        }
+                        v.push(Cfg { mfs, mfs_l, cw: 2, lw: 2, credit, snd, rcv: (snd % 2), buf: 2, batch, seq });
+                    }
+                }
+            }
+        }
+    }
+    v
+}
+
+/// the small instances whose schedules are explored exhaustively (within the deviation bound)
+fn explored_instances() -> Vec<Cfg> {
+    use Size::*;
+    let base = Cfg { mfs: 512, mfs_l: 512, cw: 1, lw: 1, credit: Credit::Auto(1), snd: 1, rcv: 0, buf: 1, batch: false, seq: vec![] };
+    let c = |f: &dyn Fn(&mut Cfg)| {
+        let mut x = base.clone();
+        f(&mut x);
+        if x.snd == 2 {
+            mixed_flags(&mut x.seq);
+        }
+        x
+    };
+    vec![
+        // everything at its minimum, single-frame messages
+        c(&|x| x.seq = vec![m(B10, 0), m(B10, 1)]),
+        c(&|x| { x.seq = vec![m(B10, 0), m(B10, 1)]; x.batch = true }),
+        c(&|x| { x.seq = vec![m(B0, 2), m(B10, 3), m(B10, 0)]; x.snd = 0 }),
+        c(&|x| { x.seq = vec![m(B10, 1), m(B0, 0)]; x.snd = 2; x.rcv = 1 }),
+        c(&|x| { x.seq = vec![m(B10, 0), m(B10, 0)]; x.credit = Credit::Manual(1); x.rcv = 1 }),
+        c(&|x| { x.seq = vec![m(B10, 3), m(B10, 2)]; x.credit = Credit::Manual(1); x.batch = true; x.snd = 0 }),
+        // exact-fit and one-over frames, windows of 1 and 2
+        c(&|x| x.seq = vec![m(Cap, 0), m(B10, 1)]),
+        c(&|x| { x.seq = vec![m(CapP1, 1), m(B10, 0)]; x.lw = 2; x.cw = 2 }),
+        c(&|x| { x.seq = vec![m(CapP1, 0)]; x.lw = 2; x.snd = 0 }),
+        c(&|x| { x.seq = vec![m(CapM1, 2), m(CapP1, 3)]; x.lw = 2; x.cw = 1; x.batch = true }),
+        // multi-frame message (4 frames at 512): listener window below / at / above the frame count
+        c(&|x| { x.seq = vec![m(Big, 1)]; x.lw = 1 }),
+        c(&|x| { x.seq = vec![m(Big, 0)]; x.lw = 2; x.snd = 0 }),
+        c(&|x| { x.seq = vec![m(Big, 1), m(B10, 0)]; x.lw = 5000; x.cw = 1 }),
+        c(&|x| { x.seq = vec![m(B10, 0), m(Big, 2)]; x.lw = 5000; x.cw = 1; x.batch = true; x.rcv = 1 }),
+        c(&|x| { x.seq = vec![m(Big, 3), m(Big, 0)]; x.lw = 5000; x.cw = 5000; x.credit = Credit::Auto(2); x.buf = 2 }),
+        c(&|x| { x.seq = vec![m(Big, 0), m(B10, 1)]; x.lw = 5000; x.snd = 2; x.credit = Credit::Manual(1) }),
+        // credit Auto(1) / Auto(2) against roomy windows, buffers of 1 and 2
+        c(&|x| { x.seq = vec![m(B10, 0), m(B10, 1), m(B10, 2)]; x.lw = 5000; x.cw = 5000 }),
+        c(&|x| { x.seq = vec![m(B10, 0), m(B10, 1), m(B10, 2)]; x.lw = 5000; x.cw = 5000; x.batch = true; x.credit = Credit::Auto(2) }),
+        c(&|x| { x.seq = vec![m(B10, 1), m(CapP1, 0)]; x.lw = 5000; x.cw = 5000; x.snd = 0; x.buf = 2 }),
+        // windows of 1 / 2 against plenty of credit
+        c(&|x| { x.seq = vec![m(B10, 0), m(B10, 1), m(B10, 2)]; x.credit = Credit::Auto(200); x.batch = true }),
+        c(&|x| { x.seq = vec![m(B10, 0), m(B10, 1), m(B10, 2)]; x.credit = Credit::Auto(200); x.snd = 0; x.lw = 2 }),
+        // roomy everything (the default-like configuration), 4096-byte frames
+        c(&|x| { x.seq = vec![m(B10, 2), m(Big, 1)]; x.mfs = 4096; x.mfs_l = 4096; x.lw = 5000; x.cw = 5000; x.credit = Credit::Auto(200); x.buf = 256; x.rcv = 1 }),
+        c(&|x| { x.seq = vec![m(Cap, 1), m(CapP1, 1)]; x.mfs = 4096; x.mfs_l = 512; x.lw = 5000; x.cw = 2; x.credit = Credit::Auto(2); x.buf = 2; x.snd = 2 }),
+        c(&|x| { x.seq = vec![m(B10, 0)]; x.snd = 1; x.rcv = 1; x.credit = Credit::Manual(1) }),
+    ]
+}
+
+/// "pressure" instances: three messages (multi-frame, small, multi-frame) pushed through buffers of 1 / 2 while
+/// a small listener window makes the listener answer every transfer frame with a flow: traffic in both
+/// directions through the bounded engine channels at the same time
+fn pressure_instances() -> Vec<Cfg> {
+    use Size::*;
+    let mut v = vec![];
+    for buf in [1usize, 2] {
+        for lw in [1u32, 2] {
+            for credit in [Credit::Auto(200), Credit::Auto(1)] {
+                for snd in [0u8, 1] {
+                    for batch in [false, true] {
+                        v.push(Cfg { mfs: 512, mfs_l: 512, cw: 5000, lw, credit, snd, rcv: 0, buf, batch, seq: vec![m(Big, 1), m(B10, 3), m(Big, 0)] });
+                    }
+                }
+            }
+        }
+    }
+    v
+}
+
+fn explore_cfg() -> RunCfg {
+    RunCfg::default().with(Kind::Read, true).with(Kind::Write, true)
+}
+
+fn points_json(p: &[Point]) -> serde_json::Value {
+    json!(p.iter().map(|x| json!([x.kind.idx(), x.n, x.chosen])).collect::<Vec<_>>())
+}
+
+fn replay_json(cfg: &Cfg, points: &[Point], io: bool) -> serde_json::Value {
+    // up to the last deviation; default answers beyond
+    let last = points.iter().rposition(|p| p.chosen != 0).map(|i| i + 1).unwrap_or(0);
+    json!({"cfg": cfg, "io_choices": io, "schedule": points_json(&points[..last])})
+}
+
+#[derive(Default)]
+struct Agg {
+    executions: u64,
+    transitions: u64,
+    states: HashSet<u64>,
+    /// signature -> (count, first (fewest deviations) detail, replay)
+    fails: BTreeMap<String, (u64, usize, String, serde_json::Value)>,
+    mach: Vec<String>,
+    // non-vacuity
+    window_closed: u64,
+    window_overrun: u64,
+    credit_exhausted: u64,
+    split: u64,
+    exact_fit: u64,
+    one_over_two_frames: u64,
+    delivered_msgs: u64,
+    hang_split_small_window: u64,
+    hang_other: u64,
+    split_small_window_total: u64,
+}
+
+impl Agg {
+    fn fail(&mut self, sig: String, devs: usize, detail: String, replay: serde_json::Value) {
+        self.fail_n(sig, 1, devs, detail, replay)
+    }
+    fn fail_n(&mut self, sig: String, n: u64, devs: usize, detail: String, replay: serde_json::Value) {
+        let e = self.fails.entry(sig).or_insert((0, usize::MAX, String::new(), json!(null)));
+        e.0 += n;
+        if devs < e.1 {
+            e.1 = devs;
+            e.2 = detail;
+            e.3 = replay;
+        }
+    }
+    fn merge(&mut self, o: Agg) {
+        self.executions += o.executions;
+        self.transitions += o.transitions;
+        self.states.extend(o.states);
+        for (sig, (count, devs, detail, replay)) in o.fails {
+            let e = self.fails.entry(sig).or_insert((0, usize::MAX, String::new(), json!(null)));
+            e.0 += count;
+            if devs < e.1 {
+                e.1 = devs;
+                e.2 = detail;
+                e.3 = replay;
+            }
+        }
+        for m in o.mach {
+            self.mach(m);
+        }
+        self.window_closed += o.window_closed;
+        self.window_overrun += o.window_overrun;
+        self.credit_exhausted += o.credit_exhausted;
+        self.split += o.split;
+        self.exact_fit += o.exact_fit;
+        self.one_over_two_frames += o.one_over_two_frames;
+        self.delivered_msgs += o.delivered_msgs;
+        self.hang_split_small_window += o.hang_split_small_window;
+        self.hang_other += o.hang_other;
+        self.split_small_window_total += o.split_small_window_total;
+    }
+    fn mach(&mut self, s: String) {
+        if self.mach.len() < 6 {
+            self.mach.push(s);
+        }
+    }
+    fn count_wire(&mut self, cfg: &Cfg, p: &Prepared, o: &Obs) {
+        let w = &o.wire;
+        self.window_closed += w.window_closed as u64;
+        self.window_overrun += w.window_overrun as u64;
+        self.credit_exhausted += w.credit_exhausted as u64;
+        self.split += w.frames_per_delivery.iter().any(|k| *k > 1) as u64;
+        self.delivered_msgs += o.received.len() as u64;
+        let mfs = cfg.negotiated_mfs() as usize;
+        let mut fi = 0usize;
+        for (i, k) in w.frames_per_delivery.iter().enumerate() {
+            if let Some(s) = cfg.seq.get(i) {
+                if s.size == Size::Cap && *k == 1 && w.transfer_frame_sizes.get(fi) == Some(&mfs) && p.enc[i].len() == p.caps[i] {
+                    self.exact_fit += 1;
+                }
+                if s.size == Size::CapP1 && *k == 2 && p.enc[i].len() == p.caps[i] + 1 {
+                    self.one_over_two_frames += 1;
+                }
+            }
+            fi += k;
+        }
+    }
+}
+
+fn run_lattice(ctx: &Ctx, cfgs: &[Cfg], calib: &Calib, agg: &mut Agg, deadline: Instant) -> (usize, Vec<String>) {
+    struct R {
+        key: u64,
+        frames: u64,
+        fails: Vec<(String, String)>,
+        mach: Vec<String>,
+        obs: Option<Obs>,
+        prepared: Option<Arc<Prepared>>,
+        skipped: bool,
+    }
+    let res = par_map(cfgs, ctx.threads, |_, cfg| {
+        if Instant::now() > deadline {
+            return R { key: 0, frames: 0, fails: vec![], mach: vec![], obs: None, prepared: None, skipped: true };
+        }
+        let p = match prepare(cfg, calib) {
+            Ok(p) => p,
+            Err(e) => return R { key: 0, frames: 0, fails: vec![], mach: vec![format!("{e} ({})", cfg.short())], obs: None, prepared: None, skipped: false },
+        };
+        let ex = run_exec(vec![], &RunCfg::none(), &scenario(cfg, &p, false));
+        let (fails, mach) = judge_exec(cfg, &p, &ex);
+        let frames = ex.out.as_ref().map(|o| (o.wire.frames[0] + o.wire.frames[1]) as u64).unwrap_or(0);
+        R { key: obs_key(&ex), frames, fails, mach, obs: ex.out, prepared: Some(p), skipped: false }
+    });
+    let mut done = 0usize;
+    let mut samples = vec![];
+    for (cfg, r) in cfgs.iter().zip(res) {
+        if r.skipped {
+            continue;
+        }
+        done += 1;
+        agg.executions += 1;
+        agg.transitions += r.frames;
+        agg.states.insert(r.key);
+        for s in r.mach {
+            agg.mach(s);
+        }
+        if let (Some(o), Some(p)) = (&r.obs, &r.prepared) {
+            agg.count_wire(cfg, p, o);
+            // verify (not assume) the cause named in the hang signature: how many instances with a transport-split
+            // message and a listener window below its frame count hang, and how many hangs are there elsewhere
+            let kmax = (0..p.enc.len()).map(|i| frames_needed(p, i)).max().unwrap_or(1);
+            let small = kmax > 1 && (cfg.lw as usize) < kmax;
+            agg.split_small_window_total += small as u64;
+            if o.sender_hangs && o.setup_error.is_none() {
+                if small {
+                    agg.hang_split_small_window += 1;
+                } else {
+                    agg.hang_other += 1;
+                }
+            }
+            if samples.len() < 2 && o.wire.frames_per_delivery.iter().any(|k| *k > 1) && o.wire.window_closed && r.fails.is_empty() {
+                samples.push(format!("{} => {}", cfg.short(), o.wire.trace.join(" | ")));
+            }
+        }
+        for (sig, detail) in r.fails {
+            let trace = r.obs.as_ref().map(|o| o.wire.trace.join("\n    ")).unwrap_or_default();
+            agg.fail(sig, 0, format!("[default schedule] {}: {detail}\n  wire:\n    {trace}", cfg.short()), replay_json(cfg, &[], false));
+        }
+    }
+    (done, samples)
+}
+
+struct ExploreStats {
+    executions: u64,
+    complete: bool,
+    level: Option<u32>,
+    branching: [u64; 5],
+}
+
+fn explore_instance(threads: usize, cfg: &Cfg, calib: &Calib, bounds: &Bounds, deadline: Instant, agg: &mut Agg) -> Option<ExploreStats> {
+    let p = match prepare(cfg, calib) {
+        Ok(p) => p,
+        Err(e) => {
+            agg.mach(format!("{e} ({})", cfg.short()));
+            return None;
+        }
+    };
+    let rc = explore_cfg();
+    let sc = scenario(cfg, &p, true);
+    if let Err(e) = determinism_check(&rc, &sc, obs_key) {
+        agg.mach(format!("determinism self-check: {e} ({})", cfg.short()));
+        return None;
+    }
+    let local = Mutex::new((BTreeMap::<String, (u64, usize, String, Vec<Point>)>::new(), Vec::<String>::new(), HashSet::<u64>::new(), [0u64; 8]));
+    let st = explore(&rc, bounds, &sc, threads, deadline, |e| {
+        let key = obs_key(e);
+        let (fails, mach) = judge_exec(cfg, &p, e);
+        let devs = e.points.iter().filter(|x| x.chosen != 0).count();
+        let mut g = local.lock().unwrap();
+        g.2.insert(key);
+        if let Some(o) = &e.out {
+            let w = &o.wire;
+            g.3[0] += w.window_closed as u64;
+            g.3[1] += w.window_overrun as u64;
+            g.3[2] += w.credit_exhausted as u64;
+            g.3[3] += w.frames_per_delivery.iter().any(|k| *k > 1) as u64;
+            g.3[4] += o.received.len() as u64;
+        }
+        for s in mach {
+            if g.1.len() < 3 {
+                g.1.push(format!("{s} [schedule {:?}]", dev_list(&e.points)));
+            }
+        }
+        for (sig, detail) in fails {
+            // count every occurrence, keep the fewest-deviation representative per signature
+            let better = g.0.get(&sig).map(|x| devs < x.1).unwrap_or(true);
+            let n = g.0.get(&sig).map(|x| x.0).unwrap_or(0) + 1;
+            if better {
+                let trace = e.out.as_ref().map(|o| o.wire.trace.join("\n    ")).unwrap_or_default();
+                g.0.insert(sig, (n, devs, format!("[schedule deviations {:?}] {}: {detail}\n  wire:\n    {trace}", dev_list(&e.points), cfg.short()), e.points.clone()));
+            } else if let Some(x) = g.0.get_mut(&sig) {
+                x.0 = n;
+            }
+        }
+        key
+    });
+    let (fails, mach, keys, cnt) = local.into_inner().unwrap();
+    for (sig, (n, devs, detail, points)) in fails {
+        agg.fail_n(sig, n, devs, detail, replay_json(cfg, &points, true));
+    }
+    for s in mach {
+        agg.mach(s);
+    }
+    for d in &st.divergences {
+        agg.mach(format!("replay divergence: {d} ({})", cfg.short()));
+    }
+    agg.states.extend(keys);
+    agg.executions += st.executions;
+    agg.transitions += st.points_total;
+    agg.window_closed += cnt[0];
+    agg.window_overrun += cnt[1];
+    agg.credit_exhausted += cnt[2];
+    agg.split += cnt[3];
+    agg.delivered_msgs += cnt[4];
+    Some(ExploreStats { executions: st.executions, complete: st.exhaustive, level: st.completed_level, branching: st.branching_points_by_kind })
+}
+
+/// explore several instances, `GROUPS` at a time (the first deviation level of one instance is a single
+/// execution, so one instance alone cannot keep all cores busy); results in instance order
+const GROUPS: usize = 4;
+fn explore_many(ctx: &Ctx, cfgs: &[&Cfg], calib: &Calib, bounds: &Bounds, deadline: Instant, agg: &mut Agg) -> Vec<Option<ExploreStats>> {
+    let per = (ctx.threads / GROUPS).max(1);
+    let res = par_map(cfgs, GROUPS.min(ctx.threads.max(1)), |_, cfg| {
+        if Instant::now() > deadline {
+            return (Agg::default(), None, true);
+        }
+        let mut a = Agg::default();
+        let st = explore_instance(per, cfg, calib, bounds, deadline, &mut a);
+        (a, st, false)
+    });
+    let mut out = vec![];
+    for (a, st, skipped) in res {
+        agg.merge(a);
+        if skipped {
+            out.push(Some(ExploreStats { executions: 0, complete: false, level: None, branching: [0; 5] }));
+        } else {
+            out.push(st);
+        }
+    }
+    out
+}
+
+fn dev_list(points: &[Point]) -> Vec<(usize, String, u32)> {
+    points.iter().enumerate().filter(|(_, p)| p.chosen != 0).map(|(i, p)| (i, format!("{:?}", p.kind), p.chosen)).collect()
+}
+
+pub fn run(ctx: &Ctx) -> Outcome {
     let mut out = Outcome::new("model_checking");
-    out.machinery_errors.push("check C01 is not built yet".into());
+    if let Some(path) = &ctx.replay {
+        return replay(path, out);
+    }
+    let calib: Calib = Mutex::new(HashMap::new());
+    let mut agg = Agg::default();
+    let t0 = Instant::now();
+    let budget = Duration::from_secs_f64(ctx.budget_s);
+    let deadline = ctx.start + budget;
+
+    // ---- (1) the configuration lattice, default schedule
+    let all = lattice();
+    let lattice_deadline = if ctx.quick() { ctx.start + budget.mul_f64(0.5) } else { ctx.start + budget.mul_f64(0.15) };
+    let (lattice_done, mut samples) = run_lattice(ctx, &all, &calib, &mut agg, lattice_deadline);
+    let lattice_wall = t0.elapsed().as_secs_f64();
+    let lattice_execs = agg.executions;
+
+    // ---- (2) exhaustive schedule exploration of the small instances
+    let small = explored_instances();
+    let mut inst = small.clone();
+    inst.extend(pressure_instances());
+    let b1 = Bounds::new(1);
+    let mut per_instance = vec![];
+    let mut explored_complete = true;
+    let mut n_b1 = 0usize;
+    // quick: keep clear of the 30 s wall limit whatever the budget says
+    let explore_deadline = if ctx.quick() { deadline.min(ctx.start + Duration::from_secs(24)) } else { ctx.start + budget.mul_f64(0.45) };
+    let refs: Vec<&Cfg> = inst.iter().collect();
+    for (cfg, st) in inst.iter().zip(explore_many(ctx, &refs, &calib, &b1, explore_deadline, &mut agg)) {
+        match st {
+            Some(s) => {
+                explored_complete &= s.complete;
+                n_b1 += s.complete as usize;
+                per_instance.push(json!({"instance": cfg.short(), "bound": b1.describe(), "executions": s.executions, "complete": s.complete, "completed_level": s.level,
+                    "branching_points_default_schedule": {"task": s.branching[0], "select": s.branching[1], "read": s.branching[2], "write": s.branching[3], "preempt": s.branching[4]}}));
+            }
+            None => explored_complete = false,
+        }
+    }
+    let mut thorough_note = String::new();
+    let mut wide_done = 0usize;
+    let mut wide_total = 0usize;
+    let mut deep_done = 0usize;
+    if !ctx.quick() {
+        // (3) bound 1 on a few hundred lattice configurations (every k-th, so that every value of every
+        // dimension occurs), then (4) task<=2 on the small instances, as far as the budget reaches
+        let stride = 31usize; // prime to every dimension's period
+        let wide: Vec<&Cfg> = all.iter().step_by(stride).collect();
+        wide_total = wide.len();
+        let wide_deadline = ctx.start + budget.mul_f64(0.75);
+        for st in explore_many(ctx, &wide, &calib, &b1, wide_deadline, &mut agg).into_iter().flatten() {
+            wide_done += st.complete as usize;
+        }
+        let b2 = Bounds::new(2).kind(Kind::Select, 1).kind(Kind::Read, 1).kind(Kind::Write, 1).kind(Kind::Preempt, 1);
+        // deep exploration: one instance at a time with all threads (levels 1 and 2 are wide enough)
+        for cfg in &small {
+            if Instant::now() > deadline {
+                break;
+            }
+            if let Some(s) = explore_instance(ctx.threads, cfg, &calib, &b2, deadline, &mut agg) {
+                deep_done += s.complete as usize;
+                per_instance.push(json!({"instance": cfg.short(), "bound": b2.describe(), "executions": s.executions, "complete": s.complete, "completed_level": s.level}));
+                if !s.complete {
+                    break;
+                }
+            }
+        }
+        thorough_note = format!("; bound 1 on {wide_done}/{wide_total} further lattice configurations (every {stride}th); [{}] complete on {deep_done}/{} small instances", b2.describe(), small.len());
+    }
+
+    // ---- verdicts
+    for (sig, (count, _devs, detail, replay)) in std::mem::take(&mut agg.fails) {
+        out.violation(sig, format!("(x{count} in this run) {detail}"), replay);
+    }
+    out.machinery_errors.extend(agg.mach.iter().cloned());
+    if agg.hang_other > 0 {
+        // the signature names a cause; say so if hangs also occur where that cause is absent
+        out.set("hangs_outside_transport_split_small_window", agg.hang_other);
+    }
+
+    // ---- evidence
+    let exhaustive = lattice_done == all.len() && explored_complete && n_b1 == inst.len() && (ctx.quick() || (wide_done == wide_total && deep_done == small.len()));
+    out.set("states", agg.states.len() as u64);
+    out.set("transitions", agg.transitions);
+    out.set("traces_validated_against_impl", agg.executions);
+    out.set("exhaustive", exhaustive);
+    out.set(
+        "bound",
+        format!(
+            "lattice: {lattice_done}/{} instances (max-frame-size {{512,4096}} x client window {{1,2,5000}} x listener window {{1,2,5000}} x credit {{Auto(1),Auto(2),Auto(200),Manual(1)}} x snd-settle {{settled,unsettled,mixed}} x rcv-settle {{first,second}} x buffers {{1,2,256}} x {{send,send_batchable}} x 6 sequences of 1-3 messages over 6 size classes and 4 section combinations, + 144 instances with unequal max-frame-sizes), default schedule; schedules: [{}] complete on {n_b1}/{} instances (24 hand-picked small ones + 32 pressure instances){thorough_note}",
+            all.len(),
+            b1.describe(),
+            inst.len()
+        ),
+    );
+    out.set("rule", "state = canonical observation of one execution of the real client+listener pair at its final quiescent point (send results, received re-encodings, frames per delivery and frame sizes on the wire, window/credit exhaustion flags, flow and disposition counts); transitions = scheduling / select / IO choice points executed in the explored executions + wire frames exchanged in the default-schedule executions");
+    if samples.is_empty() {
+        samples.push("(no sample with a closed window and a split delivery)".into());
+    }
+    out.set("samples", json!(samples));
+    out.set("lattice_instances", lattice_done as u64);
+    out.set("lattice_executions", lattice_execs);
+    out.set("lattice_wall_s", (lattice_wall * 100.0).round() / 100.0);
+    out.set("explored_instances", json!(per_instance));
+    out.set("explored_executions", agg.executions - lattice_execs);
+    // non-vacuity (measured on the wire by the tap, per execution)
+    out.set("nonvacuity_executions_window_really_closed", agg.window_closed);
+    out.set("nonvacuity_executions_credit_really_ran_out", agg.credit_exhausted);
+    out.set("nonvacuity_executions_with_split_delivery", agg.split);
+    out.set("nonvacuity_exact_fit_frames(frame==max-frame-size)", agg.exact_fit);
+    out.set("nonvacuity_one_byte_over_needs_two_frames", agg.one_over_two_frames);
+    out.set("nonvacuity_messages_delivered", agg.delivered_msgs);
+    out.set("info_executions_window_overrun_on_wire(C07)", agg.window_overrun);
+    out.set("lattice_instances_split_message_and_listener_window_below_frame_count", agg.split_small_window_total);
+    out.set("lattice_hangs_in_those", agg.hang_split_small_window);
+    out.set("lattice_hangs_elsewhere", agg.hang_other);
+    out.assume("the listener application accepts every delivery; the receiver's credit policy is set through the public Receiver API right after the link is accepted (LinkAcceptor has no credit knob), so Auto(1)/Auto(2)/Manual start as a reduction from the initial 200");
+    out.assume("no faults: the connection stays up in every scenario, nobody detaches, ends or closes before the observation");
+    if agg.window_closed == 0 || agg.credit_exhausted == 0 || agg.split == 0 || agg.exact_fit == 0 || agg.one_over_two_frames == 0 {
+        out.machinery_errors.push(format!(
+            "vacuous: window closed {} credit ran out {} split deliveries {} exact-fit frames {} one-over {}",
+            agg.window_closed, agg.credit_exhausted, agg.split, agg.exact_fit, agg.one_over_two_frames
+        ));
+    }
+    out
+}
+
+fn replay(path: &std::path::Path, mut out: Outcome) -> Outcome {
+    let s = std::fs::read_to_string(path).unwrap_or_default();
+    let j: serde_json::Value = serde_json::from_str(&s).unwrap_or_default();
+    let r = if j.get("replay").is_some() { &j["replay"] } else { &j };
+    let cfg: Cfg = match serde_json::from_value(r["cfg"].clone()) {
+        Ok(c) => c,
+        Err(e) => {
+            out.machinery_errors.push(format!("replay file has no usable cfg: {e}"));
+            return out;
+        }
+    };
+    let io = r["io_choices"].as_bool().unwrap_or(false);
+    let pts: Vec<Point> = r["schedule"]
+        .as_array()
+        .map(|a| {
+            a.iter()
+                .filter_map(|x| {
+                    let v = x.as_array()?;
+                    Some(Point { kind: KINDS[v.first()?.as_u64()? as usize % KINDS.len()], n: v.get(1)?.as_u64()? as u32, chosen: v.get(2)?.as_u64()? as u32 })
+                })
+                .collect()
+        })
+        .unwrap_or_default();
+    let calib: Calib = Mutex::new(HashMap::new());
+    let p = match prepare(&cfg, &calib) {
+        Ok(p) => p,
+        Err(e) => {
+            out.machinery_errors.push(e);
+            return out;
+        }
+    };
+    println!("replaying {}", cfg.short());
+    println!("  messages: {:?} (single-frame payload room {:?})", p.enc.iter().map(|b| describe_msg(b)).collect::<Vec<_>>(), p.caps);
+    println!("  schedule deviations: {:?}", dev_list(&pts));
+    let rc = if io { explore_cfg() } else { RunCfg::none() };
+    let e = run_exec(pts, &rc, &scenario(&cfg, &p, io));
+    println!("  diverged={:?} spun={} watchdog={} panics={:?}", e.diverged, e.spun, e.watchdog, e.panics);
+    if let Some(o) = &e.out {
+        for l in &o.wire.trace {
+            println!("  {l}");
+        }
+        println!("  sender task: '{}' hangs={} results {:?}", o.step, o.sender_hangs, o.sends);
+        println!("  received: {:?}; notes {:?}", o.received.iter().map(|b| describe_msg(b)).collect::<Vec<_>>(), o.recv_notes);
+        println!("  wire: frames/delivery {:?} window closed {} overrun {} credit ran out {}", o.wire.frames_per_delivery, o.wire.window_closed, o.wire.window_overrun, o.wire.credit_exhausted);
+    }
+    if let Some(d) = &e.diverged {
+        out.machinery_errors.push(format!("replay diverged: {d}"));
+    }
+    let (fails, mach) = judge_exec(&cfg, &p, &e);
+    for (sig, d) in fails {
+        println!("  FAIL {sig}: {d}");
+        out.violation(sig, d, r.clone());
+    }
+    out.machinery_errors.extend(mach);
+    out.set("states", 1);
+    out.set("transitions", e.points.len().max(1) as u64);
+    out.set("traces_validated_against_impl", 1);
+    out.set("samples", json!([r]));
+    out.set("exhaustive", false);
+    out.set("bound", "replay of one execution");
+    out.set("rule", "replay");
     out
 }
